@@ -481,6 +481,19 @@ func rGenSegment(r *rand.Rand, o rGenOpts) string {
 func rGenPattern(r *rand.Rand, o rGenOpts) string {
 	n := r.Intn(4)
 	var b strings.Builder
+	switch r.Intn(40) {
+	case 0: // rare sizes: many parameters on one route (more than any fixed small slice), ...
+		n = 6 + r.Intn(6)
+		for i := 0; i < n; i++ {
+			b.WriteString("/:p" + strconv.Itoa(i))
+		}
+		if r.Intn(2) == 0 {
+			b.WriteString("/*")
+		}
+		return b.String()
+	case 1: // ... and a long literal segment
+		return "/" + strings.Repeat("long-segment-", 5+r.Intn(20)) + rParams[r.Intn(len(rParams))]
+	}
 	for i := 0; i < n; i++ {
 		b.WriteByte('/')
 		b.WriteString(rGenSegment(r, o))
@@ -561,7 +574,7 @@ func rGenTable(r *rand.Rand, o rGenOpts) []rRoute {
 	return out
 }
 
-var rValues = []string{"", "a", "ab", "b", "a/b", "a:b", "%41", "\xc3\xa9", "users", "1", "x.y", "new", ":", "*", "abc/", "/", "..", "a/../b", ".", "x/.."}
+var rValues = []string{"", "a", "ab", "b", "a/b", "a:b", "%41", "\xc3\xa9", "users", "1", "x.y", "new", ":", "*", "abc/", "/", "..", "a/../b", ".", "x/..", "\x00", " ", "a\tb", "\x7f", "%00", "%2F", "+"}
 
 func rInstancePath(r *rand.Rand, p string) string {
 	toks, _, _ := rNorm(p)
